@@ -255,6 +255,76 @@ Definition rewind_m (w : mworld) (_ : unit) : outcome (Z * option gerr * mworld)
 
 End Ops.
 
+(* ---- the packet buffer's abstract operations, by the model's reader ----
+   An io.Reader value is its kind (what the type assertions to io.Seeker and to a bufio.Reader answer); the bytes and the
+   position are in the world.  A reader's own failure (the injected fault) is EExt wr for an ARBITRARY wr: it may wrap
+   io.EOF, io.ErrUnexpectedEOF or anything else. *)
+Definition rerr_err (wr : gerr) (e : option rerr) : option gerr :=
+  match e with
+  | None => None
+  | Some RInjected => Some (EExt wr)
+  | Some REOF => Some e_eof
+  | Some RUnexpectedEOF => Some e_ueof
+  end.
+
+(* io.ReadFull(r, buf): the bytes obtained overwrite the front of buf *)
+Definition read_full_m (wr : gerr) (w : mworld) (_ : rkind) (buf : list Z) : outcome (list Z * Z * option gerr * mworld) :=
+  let '((bs, e), r') := read_full (mw_reader w) (Z.of_nat (List.length buf)) in
+  Done (bs ++ skipn (List.length bs) buf, Z.of_nat (List.length bs), rerr_err wr e, mw_set_reader w r').
+
+(* bufio.Reader.Peek(n): the bytes available (nothing consumed); io.EOF when fewer than n *)
+Definition peek_m (wr : gerr) (w : mworld) (_ : unit) (n : Z) : outcome (list Z * option gerr * mworld) :=
+  let '((bs, e), _) := read_full (mw_reader w) n in
+  Done (bs, match e with None => None | Some RInjected => Some (EExt wr) | Some _ => Some e_eof end, w).
+
+(* bufio.Reader.Discard(n) *)
+Definition discard_m (w : mworld) (_ : unit) (n : Z) : outcome (Z * option gerr * mworld) :=
+  Done (n, None, mw_set_reader w (snd (read_full (mw_reader w) n))).
+
+Definition as_seeker_m (k : rkind) : option unit := match k with Seekable => Some tt | _ => None end.
+Definition as_bufio_m (k : rkind) : option unit := match k with Bufio => Some tt | _ => None end.
+
+(* io.Seeker.Seek(0, 0) of the model's seekable reader *)
+Definition seek_m (w : mworld) (_ : unit) (off whence : Z) : outcome (Z * option gerr * mworld) :=
+  Done (0, None, mw_set_reader w (r_seek0 (mw_reader w))).
+
+(* parsePacket: the packet handed to the skipper is logged (ghost) *)
+Definition parse_packet_m (err_of : Z -> gerr) (w : mworld) (i : iter) (sk : option go_skipper)
+  : outcome (iter * option Packet * option gerr * mworld) :=
+  let w' := mk_mworld (mw_reader w) (mw_pm w) (mw_groups w) (mw_consulted w ++ consulted (ibs i)) in
+  match run_iter (parse_packet (skip_of sk)) (ibs i) with
+  | Ok p => Done (i, Some p, None, w')
+  | Err c => Done (i, None, Some (err_of c), w')
+  | Panic => Panicked
+  end.
+
+(* the reader's bookkeeping is consistent: what is left is what total and position say *)
+Definition rest_len (r : reader) : Prop := Z.of_nat (List.length (r_rest r)) = r_total r - r_pos r.
+
+Lemma r_stop_le_len r : fst (r_stop r) <= r_len r.
+Proof. unfold r_stop, r_len. destruct (r_fault r) as [f|]; [destruct (f <=? r_total r) eqn:E|]; cbn [fst]; lia. Qed.
+
+Lemma read_full_ok r n bs r' : rest_len r -> 0 <= n -> read_full r n = ((bs, None), r') ->
+  Z.of_nat (List.length bs) = n /\ rest_len r' /\ r_len r' = r_len r /\ r_pos r' = r_pos r + n /\
+  n <= r_len r - r_pos r /\ r_kind r' = r_kind r.
+Proof.
+  unfold read_full, rest_len. intros Hl Hn. pose proof (r_stop_le_len r) as Hs. unfold r_len in *.
+  destruct (r_stop r) as [stop inj]. cbn [fst] in Hs.
+  destruct (n <=? Z.max 0 (stop - r_pos r)) eqn:E; [|discriminate].
+  intros H. inversion H; subst. unfold r_advance. cbn [r_rest r_total r_pos r_kind].
+  rewrite firstn_length, skipn_length. repeat split; lia.
+Qed.
+
+Lemma read_full_len r n bs e r' : 0 <= n -> read_full r n = ((bs, e), r') -> Z.of_nat (List.length bs) <= n.
+Proof.
+  unfold read_full. intros Hn. destruct (r_stop r) as [stop inj].
+  destruct (n <=? Z.max 0 (stop - r_pos r)) eqn:E; intros H; inversion H; subst; rewrite firstn_length; lia.
+Qed.
+
+Lemma overwrite_length (bs buf : list Z) : (List.length bs <= List.length buf)%nat ->
+  List.length (bs ++ skipn (List.length bs) buf) = List.length buf.
+Proof. intros H. rewrite app_length, skipn_length. lia. Qed.
+
 (* the hypotheses on err_of are satisfiable: the plainest representation of the model's codes *)
 Definition err_of_plain (wr : gerr) (c : Z) : gerr :=
   if c =? E_nomore then e_nomore
